@@ -24,6 +24,9 @@ ParameterEvent::ParameterEvent(Parameter* parameter) : parameter_(parameter) {}
 Parameter::Parameter(const std::string& name, double value, std::shared_ptr<ConstraintInterface> constraint, double precision) :
   name_(name), value_(0), precision_(0), constraint_(constraint), listeners_()
 {
+  // setValue skips the test when value equals the initial 0:
+  if (constraint_ && !constraint_->isCorrect(value))
+    throw ConstraintException("Parameter::Parameter", this, value);
   setValue(value);
   setPrecision(precision);
 }
